@@ -142,13 +142,16 @@ let run_oracles (case : string) (out : string) (kind : string) (peqb : 'p -> 'p 
      deviation from it is left to the correspondence (DIVERGE) and to the convergence oracle. *)
   if List.exists (fun a -> let i = int_of_z a in i < 0 || i > 125) probes then fail "probe_range"
   else if not (cursor_walk Z0 false abs) then count ("cursor-order-deviation:" ^ kind);
-  if not (evs_matchb peqb abs) then fail "event_matches_observation";
-  let clean = no_other abs in
+  (* lenient for the live list: a Discovered for an answer that is not a response telegram (O1) is
+     accepted as well as none; the property does not decide that *)
+  if not (evs_matchb peqb silent abs) then fail "event_matches_observation";
   (match alt_walk silent Z0 abs with None -> fail "alternate" | Some _ -> ());
-  if clean then begin
+  (* strict alternation is due whenever no marking went unannounced *)
+  if no_silent Z0 abs then begin
     count ("alt:strict:" ^ kind);
+    if not (no_other abs) then count ("alt:strict-with-announced-other:" ^ kind);
     (match alt_walk false Z0 abs with None -> fail "alternate_strict" | Some _ -> ())
-  end else count ("alt:with-other-replies:" ^ kind);
+  end else count ("alt:with-unannounced-marking:" ^ kind);
   let nev = List.fold_left (fun (u, r, d) p ->
     List.fold_left (fun (u, r, d) e -> match e with AUp _ -> (u + 1, r, d) | ARe _ -> (u, r + 1, d) | ADown _ -> (u, r, d + 1))
       (u, r, d) p.ap_evs) (0, 0, 0) abs in
